@@ -251,6 +251,21 @@ inline Result run(std::vector<std::function<void()>> bodies, std::function<uint3
 	return r;
 }
 
+// Schedule strategies, decoded from the tape (pick(5)). 0, 4: a uniform choice among the enabled threads at every point (the depth-first
+// enumerators use this one). 1, 3 (2): few pre-emptions - the running thread continues unless the tape element is a multiple of
+// 8 (32), in which case one of the others is chosen. Defects that need a particular order of a few events inside long
+// stretches of undisturbed execution are reached far more often that way than with a switch at every other point.
+template<typename TapeT>
+inline std::function<uint32_t(size_t)> make_chooser(TapeT &t, unsigned mode) {
+	return [&t, mode](size_t n) -> uint32_t {
+		if(t.done()) return 0;
+		uint32_t x = t.next();
+		if(mode == 0 || mode == 4 || n < 2) return x % n;
+		unsigned period = mode == 2 ? 32 : 8;
+		return (x % period) ? 0 : 1 + (x / period) % (n - 1);
+	};
+}
+
 inline void begin_fair_tail() { auto &s = S(); Ignore ig; std::unique_lock<std::mutex> lk(s.bm); s.fair_tail = true; }
 
 } // namespace dsched
